@@ -27,3 +27,7 @@ proof!(c11_exact_5_4, scen::c11::len(5, 4), scen::c11::exact::<5, 4>, 17);
 proof!(c11_exact_0_0, scen::c11::len(0, 0), scen::c11::exact::<0, 0>, 17);
 proof!(c11_exact_3_1, scen::c11::len(3, 1), scen::c11::exact::<3, 1>, 17);
 proof!(c11_exact_2_2, scen::c11::len(2, 2), scen::c11::exact::<2, 2>, 17);
+proof!(dbg_build, scen::c11::len(3, 2), scen::c11::dbg_build, 17);
+proof!(dbg_oracle, scen::c11::len(3, 2), scen::c11::dbg_oracle, 17);
+proof!(dbg_validate, scen::c11::len(3, 2), scen::c11::dbg_validate, 17);
+proof!(dbg_fri, scen::c11::len(3, 2), scen::c11::dbg_fri, 17);
